@@ -120,6 +120,67 @@ func init() {
 							res.violate("C12", "number_to_date", fmt.Sprintf("day number %d -> %04d-%02d-%02d, calendar says %s", wantNum, y, m, dd, d), nil)
 						}
 					}
+					// call history: a run keeps ONE converter of each direction for its whole life and asks it for days in the order of
+					// its input files and events, not in calendar order. The conversion is a function of its argument: the same
+					// converters are asked for the days of this year backwards, in zig-zag around every month change and in random
+					// jumps (also into other years), and every answer must be the one a fresh converter gives by the calendar
+					if cent == cents[0] {
+						first, last := (Date{year, 1, 1}).Zeit(), (Date{year, 12, 31}).Zeit()
+						for _, sep := range dateSeps {
+							kal := hermes.KalenderConverter(f, sep)
+							ask := func(n int, how string) bool {
+								if n < 1 || n > (Date{2099, 12, 31}).Zeit() {
+									return true
+								}
+								d := DateOfZeit(n)
+								want := FmtDateSep(d, fi, sep)
+								got := kal(n)
+								res.Evals++
+								res.cov("conversions_in_non_calendar_order", 1)
+								if got != want {
+									res.violate("C12", "number_to_text_depends_on_call_order", fmt.Sprintf("format %s separator %q, %s: day number %d -> %q, calendar says %q", dateFormatNames[fi], sep, how, n, got, want), nil)
+									return false
+								}
+								if d.Y == year {
+									if doy, num := conv(want); num != n || doy != d.DOY() {
+										res.violate("C12", "text_to_number_depends_on_call_order", fmt.Sprintf("format %s split %d, %s: %q -> day number %d, day of year %d; calendar says %d, %d", dateFormatNames[fi], cent, how, want, num, doy, n, d.DOY()), nil)
+										return false
+									}
+								}
+								return true
+							}
+							ok := true
+							for n := last + 1; n >= first-1 && ok; n-- {
+								ok = ask(n, "asked backwards (after the following day)")
+							}
+							for m := 1; m <= 12 && ok; m++ {
+								s := (Date{year, m, 1}).Zeit()
+								for _, off := range []int{0, -1, 0, 27, -1, -2, 1, 30, 0, -1, 14, -1, 31, 0, 28, -1, -31, -1, 59, -1} {
+									if ok = ask(s+off, "asked in zig-zag around a month change"); !ok {
+										break
+									}
+								}
+							}
+							cur := first + r.Intn(last-first+1)
+							for k := 0; k < 400 && ok; k++ {
+								switch r.Intn(6) {
+								case 0:
+									cur = first + r.Intn(last-first+1)
+								case 1:
+									cur = 1 + r.Intn((Date{2099, 12, 31}).Zeit())
+								case 2:
+									cur -= 1 + r.Intn(3)
+								case 3:
+									cur += 1 + r.Intn(3)
+								case 4:
+									cur -= 25 + r.Intn(10)
+								default:
+									cur += 25 + r.Intn(10)
+								}
+								ok = ask(cur, "asked in random jumps")
+							}
+						}
+					}
 					res.cov(fmt.Sprintf("format_%s_year_split_pairs", dateFormatNames[fi]), 1)
 				}
 			}
@@ -155,8 +216,8 @@ func init() {
 		rs := runFnSharded("C12", tier, seed, fnShards["C12"], 1200)
 		cases, inc := fnToCases("C12", seed, rs, func(r *FnResult) string { return "crash:date_conversion" })
 		spec := checkSpec{Prop: "C12", Level: "exploration",
-			Rule:   "every calendar date 1901-01-01..2099-12-31 x 4 date formats x separators {none . / -} x century splits that keep a two-digit year unambiguous (quick: lowest, highest and three random admissible splits per year; thorough: every admissible split 0..100) through the real DateConverter / KalenderConverter / KalenderDate (each text also with blanks / tabs around it, as a comma-separated file delivers it, and with a blank-padded middle field), compared with Go's time package; evaluations = text->number conversions, distinct_nontrivial = distinct calendar dates enumerated (all of them are leap-year / month-boundary relevant by construction of the oracle)",
-			Floors: []string{"years", "dates", "leap_years"}, FloorMin: map[string]int64{"years": 199, "dates": 72683, "leap_years": 49}}
+			Rule:   "every calendar date 1901-01-01..2099-12-31 x 4 date formats x separators {none . / -} x century splits that keep a two-digit year unambiguous (quick: lowest, highest and three random admissible splits per year; thorough: every admissible split 0..100) through the real DateConverter / KalenderConverter / KalenderDate (each text also with blanks / tabs around it, as a comma-separated file delivers it, and with a blank-padded middle field), compared with Go's time package; the long-lived converters of each direction are additionally asked for every day of every year backwards, in zig-zag around each month change and in random jumps (the answer may not depend on what was asked before); evaluations = text->number conversions, distinct_nontrivial = distinct calendar dates enumerated (all of them are leap-year / month-boundary relevant by construction of the oracle)",
+			Floors: []string{"years", "dates", "leap_years", "conversions_in_non_calendar_order"}, FloorMin: map[string]int64{"years": 199, "dates": 72683, "leap_years": 49}}
 		extra := map[string]interface{}{"exhaustive": true, "explanation": "the date range of the property is enumerated completely (72,684 dates by the calendar oracle: 199 years x 365 + 49 leap days) in both tiers; tiers differ only in the number of century splits tried for the short formats"}
 		return finishCheck(spec, tier, seed, cases, inc, t0, extra)
 	}
